@@ -678,3 +678,91 @@ func TestVerifC19_ConnectCancel(t *testing.T) {
 		dc()
 	})
 }
+
+// ---------------------------------------------------------------------------
+// part 5: RetryClient.Ping - the one request of the retrying client that runs under the caller's own context
+
+type c19PingCase struct {
+	RespTimeoutMs int    `json:"respTimeoutMs"` // 0 none, 5 expires, 60000 never expires within the case
+	End           string `json:"end"`           // cancel | cancelCauseEOF | cancelCauseApp | deadline | "" (wait for the response timeout)
+}
+
+func TestVerifC19_RetryPing(t *testing.T) {
+	vRun(t, "C19", vOpts{CurFile: true}, func(rt *rapid.T) c19PingCase {
+		c := c19PingCase{RespTimeoutMs: rapid.SampledFrom([]int{0, 60000, 60000, 5}).Draw(rt, "respTimeoutMs")}
+		if c.RespTimeoutMs != 5 {
+			c.End = rapid.SampledFrom([]string{"cancel", "cancelCauseEOF", "cancelCauseApp", "deadline"}).Draw(rt, "end")
+		}
+		return c
+	}, func(tb rapid.TB, c c19PingCase) {
+		r := newBaseRig()
+		defer r.shutdown()
+		r.connect(tb)
+		r.peer.mu.Lock()
+		r.peer.auto = func(p *bpeer, pk refPacket) {} // from now on the peer answers nothing, PINGREQ included
+		r.peer.mu.Unlock()
+		rc := &RetryClient{ResponseTimeout: time.Duration(c.RespTimeoutMs) * time.Millisecond}
+		rc.mu.Lock()
+		rc.cli = r.cli // (in-package: a connected client, no task goroutine needed for Ping)
+		rc.mu.Unlock()
+		var ctx context.Context
+		var end func()
+		want := context.Canceled
+		switch c.End {
+		case "cancelCauseEOF", "cancelCauseApp":
+			cctx, cc := context.WithCancelCause(context.Background())
+			ctx = cctx
+			end = func() {
+				if c.End == "cancelCauseEOF" {
+					cc(io.EOF)
+				} else {
+					cc(errors.New("verif: the application gave up"))
+				}
+			}
+			defer cc(nil)
+		case "deadline":
+			mc := &c19ManualCtx{done: make(chan struct{})}
+			ctx, end, want = mc, mc.expire, context.DeadlineExceeded
+		default:
+			cctx, cc := context.WithCancel(context.Background())
+			ctx, end = cctx, cc
+			defer cc()
+		}
+		ret := make(chan error, 1)
+		go func() { ret <- rc.Ping(ctx) }()
+		if !r.peer.waitRecv(20*time.Second, func(pk refPacket) bool { return pk.Type == rtPingReq }, 1) {
+			vFailf(tb, r.log.strings(20), "PINGREQ not written")
+		}
+		if c.End != "" {
+			end()
+		}
+		var err error
+		select {
+		case err = <-ret:
+		case <-time.After(20 * time.Second):
+			vFailf(tb, map[string]interface{}{"goroutines": vGoroutineDump()}, "RetryClient.Ping did not return (%+v)", c)
+		}
+		vCount("C19", true, vJSON(c), []string{fmt.Sprintf("retry-ping:timeout=%d,end=%s", c.RespTimeoutMs, c.End)}, func() interface{} { return c })
+		if err == nil {
+			vFailf(tb, nil, "RetryClient.Ping returned nil although no PINGRESP was ever sent (%+v)", c)
+		}
+		var rte *RequestTimeoutError
+		if c.End == "" {
+			// the response timeout expired: identifiable as such
+			if !errors.As(err, &rte) {
+				vFailf(tb, nil, "the response timeout (%d ms) expired during Ping, but errors.As(err, *RequestTimeoutError) is false; err = %v", c.RespTimeoutMs, err)
+			}
+			return
+		}
+		other := context.DeadlineExceeded
+		if want == context.DeadlineExceeded {
+			other = context.Canceled
+		}
+		if errors.Is(err, other) {
+			vFailf(tb, nil, "the caller's context ended with %v (response timeout %d ms not expired), but errors.Is(err, %v) is true; err = %v", want, c.RespTimeoutMs, other, err)
+		}
+		if !errors.Is(err, want) {
+			vFailf(tb, nil, "the caller's context ended with %v, errors.Is(err, %v) is false; err = %v", want, want, err)
+		}
+	})
+}
